@@ -148,4 +148,19 @@ theorem C04_schema_exact_int_text_accepted (cs : List Char) (n t : Nat) (hne : c
     Codec.valueIs (.num (String.ofList cs)) (.f64 (n : Int)) = true :=
   Codec.valueIs_exact_int_text cs n t hne hd hv ht hf
 
+/-- the comparison of schema.json is closed on keys: an accepted JSON object has only the expected
+    keys (a stray or misspelt key is a difference, never ignored) -/
+theorem C04_schema_keys_closed (j : Json.J) (allowed : List String) (what : String)
+    (h : Codec.keysWithin j allowed what = .ok ()) :
+    ∃ kv, j = .obj kv ∧ ∀ p ∈ kv, ∃ a ∈ allowed, Codec.sbytes a = p.1 :=
+  Codec.keysWithin_ok j allowed what h
+
+/-- accepted constraints are the model's constraints flag by flag (an absent flag reads false), so a
+    reopened schema whose file lost or gained `unique`/`index`/`upper`/`lower` cannot pass -/
+theorem C04_schema_constraints_exact (j : Json.J) (c : Cons) (what : String)
+    (h : Codec.checkCons (some j) c what = .ok ()) :
+    Codec.getBool j "index" (some false) = .ok c.index ∧ Codec.getBool j "unique" (some false) = .ok c.unique ∧
+    Codec.getBool j "upper" (some false) = .ok c.upper ∧ Codec.getBool j "lower" (some false) = .ok c.lower :=
+  Codec.checkCons_ok j c what h
+
 end Sod.Props
